@@ -127,35 +127,68 @@ def main(argv):
     return code
 
 
-def content_key(repo_root, timeout_ms):
-    import glob
+def static_digest(repo, specs, timeout_ms):
+    """everything a verification unit may depend on besides the body of its own target function: sidecars, engine,
+    solver budget, and the repository sources with the bodies of functions that have a call-site contract blanked
+    (those are only ever used through their contract; every other function may be inlined into any unit)"""
+    import glob, ast, copy
     h = hashlib.sha256()
-    files = sorted(glob.glob(os.path.join(repo_root, 'src', 'mqtt', '*.py')) + glob.glob(os.path.join(repo_root, 'src', 'mqtt', 'client', '*.py'))
-                   + glob.glob(os.path.join(VERIF, 'specs', '*.py')) + glob.glob(os.path.join(VERIF, 'pyvc', '*.py')))
-    for f in files:
-        h.update(f.replace(repo_root, '<repo>').encode())
+    tools = ('mutsweep.py', 'mutcheck.py', 'seeds.py', 'selftest.py', 'replay.py', 'concretize.py', 'check.py')
+    for f in sorted(glob.glob(os.path.join(VERIF, 'specs', '*.py')) + glob.glob(os.path.join(VERIF, 'pyvc', '*.py'))):
+        if os.path.basename(f) in tools:      # drivers and reporting: they do not take part in generating or solving VCs
+            continue
+        h.update(os.path.basename(f).encode())
         h.update(open(f, 'rb').read())
     h.update(str(timeout_ms).encode())
-    return h.hexdigest()[:24]
+    contracted = set(t for t, cs in specs.contracts.items() if any(c.callsite for c in cs))
+    for mname in sorted(repo.modules):
+        m = repo.modules[mname]
+        tree = copy.deepcopy(m.tree)
+        for sub in tree.body:
+            if isinstance(sub, ast.FunctionDef) and (mname + '.' + sub.name) in contracted:
+                sub.body = [ast.Pass()]
+            elif isinstance(sub, ast.ClassDef):
+                for meth in sub.body:
+                    if isinstance(meth, ast.FunctionDef) and (mname + '.' + sub.name + '.' + meth.name) in contracted:
+                        meth.body = [ast.Pass()]
+        h.update(mname.encode())
+        h.update(ast.dump(tree).encode())
+    return h.hexdigest()
+
+
+def unit_key(repo, specs, u, sdig):
+    import ast
+    h = hashlib.sha256(sdig.encode())
+    h.update(R.unit_label(u).encode())
+    if u[0] == 'contract':
+        found = repo.function(u[1].split('#')[0])
+        if found is not None:
+            module, ci, fnode, outer = found
+            h.update(ast.dump(outer if outer is not None else fnode).encode())
+    return h.hexdigest()[:32]
 
 
 def run_cached(repo, specs, sel, jobs, timeout_ms, repo_root, tier):
-    """unit results are a function of the repository sources, the sidecars, the engine and the solver budget: within
-    one state of all of those, a unit verified for one property is not verified again for the next one.  Any edit to
-    /repo, /verif/specs or /verif/pyvc changes the key.  Disabled with PYVC_NO_CACHE=1 and in the thorough tier."""
+    """A unit's result is a function of: the body of its target function, the sidecars, the engine, the solver budget
+    and the rest of the repository with contracted bodies blanked (static_digest).  Within one state of all of those a
+    unit verified once (for any property) is not verified again; editing a function under contract invalidates exactly
+    the units targeting it, editing anything else invalidates everything.  Disabled with PYVC_NO_CACHE=1 and in the
+    thorough tier."""
     if os.environ.get('PYVC_NO_CACHE') or tier == 'thorough':
         return R.run_units(repo, specs, sel, jobs, timeout_ms), 0
-    d = os.path.join(VERIF, '.pyvc_cache', content_key(repo_root, timeout_ms))
+    d = os.path.join(VERIF, '.pyvc_cache')
     os.makedirs(d, exist_ok=True)
+    sdig = static_digest(repo, specs, timeout_ms)
+    keys = [unit_key(repo, specs, u, sdig) for u in sel]
     res = [None] * len(sel)
     todo = []
     for i, u in enumerate(sel):
-        f = os.path.join(d, hashlib.sha1(R.unit_label(u).encode()).hexdigest() + '.json')
+        f = os.path.join(d, keys[i] + '.json')
         if os.path.exists(f):
             try:
                 r = json.load(open(f))
                 r['unit'] = tuple(tuple(x) if isinstance(x, list) else x for x in r['unit'])
-                if r['status'] == 'ok' and all(o['result'] == 'proved' or o['kind'] == 'canary' for o in r['obligations']):
+                if r['label'] == R.unit_label(sel[i]) and r['status'] == 'ok' and all(o['result'] == 'proved' or o['kind'] == 'canary' for o in r['obligations']):
                     res[i] = r
                     continue
             except Exception:
@@ -165,7 +198,7 @@ def run_cached(repo, specs, sel, jobs, timeout_ms, repo_root, tier):
     for i, r in zip(todo, fresh):
         res[i] = r
         try:
-            json.dump(r, open(os.path.join(d, hashlib.sha1(R.unit_label(sel[i]).encode()).hexdigest() + '.json'), 'w'))
+            json.dump(r, open(os.path.join(d, keys[i] + '.json'), 'w'))
         except Exception:
             pass
     return res, len(sel) - len(todo)
